@@ -15,41 +15,41 @@ BUILT = {
  "C09": ("exploration", "runtime differential monitor (reference scoping model) + metamorphic monitors: alpha-renaming, padding with unused/shadowing declarations, injection of an undeclared name + self-checking programs over names that collide under 22 standard hashes and over tens of thousands of distinct names (props/collide.rs)",
          "Directed scoping cases and scopes-profile random programs are compared with the reference model; each program is also compared with its renamed and padded variants (same outcome) and with variants in which one identifier use is replaced by an undeclared name (reference error before any output). Held on the programs and variants run.",
          "closures and self-initialisers are unspecified (4.3) and filtered out", "6.9"),
- "C10": ("exploration", "metamorphic runtime monitor: a program vs its transformed variants (globals to locals, literal to variable, mirrored operands, constant-pool perturbation); no reference interpreter in the oracle + literals that collide under standard hashes, Thue-Morse words, tens of thousands of distinct literals read back",
+ "C10": ("exploration", "metamorphic runtime monitor: a program vs its transformed variants (globals to locals, literal to variable, mirrored operands, constant-pool perturbation); no reference interpreter in the oracle + literals that collide under standard hashes, Thue-Morse words, tens of thousands of distinct literals read back; a constant pool filled to the brim",
          "Each closed program is executed together with up to nine variants that differ only in how the compiler implements it; value, output and error kind must be equal; every fused opcode must be dispatched. Held on the program/variant pairs run.",
          "the reference interpreter is used only to filter out programs with unspecified meaning", "6.10"),
  "C11": ("exploration", "runtime differential monitor on an enumerated template space + residue monitors (iteration-count sweep, operand-stack height at loop heads from the instruction trace) + sweep of every jump-operand size around a byte-exact filler (props/jumps.rs)",
          "Nests of depth 1-3 over block/if/else-if/while with every early-exit placement are compared with the reference model (complete in the thorough tier); 16 loop bodies are run for 0 to 70 000 iterations and the code after the loop must behave identically; traced stack heights at loop heads must not change between iterations. Held on the templates and runs executed.",
          "value of a loop that ran is unspecified (4.3(8))", "6.11"),
- "C12": ("exploration", "runtime differential monitor (reference model) + frame-discipline monitor over the instruction trace (base pointer, frame count, stack height at Call/Return) + limit cases",
+ "C12": ("exploration", "runtime differential monitor (reference model) + frame-discipline monitor over the instruction trace (base pointer, frame count, stack height at Call/Return) + limit cases + the directed calls through the shipped binary under nine environments",
          "Directed call shapes and calls-profile random programs are compared with the reference; from the trace the callee's base pointer must sit exactly at its first argument and the caller's frame count, base pointer and height must be restored after every return; recursion/argument/local/code-size limits must give the exact value or an error. Held on the calls traced.",
          "limit cases use the weaker oracle 'exact value or an error'", "6.12"),
  "C16": ("exploration", "item-by-item agreement of four execution contexts: fresh process per item, shuffled/repeated in one process with failing evaluations in between, 16 threads, debug build; the batch includes probes at every limit of the interpreter and polluter / probe pairs; the batch again next to millions of live objects of other evaluations (heavy-neighbours)",
          "One batch of generated programs (plus programs just below, at and above the nesting, stack, operand-size and integer-range limits, and programs that modify in place whatever builtins and literals hand out) is evaluated in a fresh process each, repeatedly in random orders inside a long-lived process, concurrently from 16 threads with random delays, and by the debug-assertion build; the renderings must agree. Held on the interleavings and histories produced.",
          "only the two Cargo profiles are compared; thread-sanitizer / Miri passes are part of the thorough tier when their builds are available", "6.16"),
- "C17": ("fault_enumeration", "retained Compiler+VM driven like the prompt; reference session model + eval() of the concatenated successful lines + carry-over and shadow-heap monitors; every line cut after every k instructions; the same sessions typed into the shipped prompt and compared line by line; sessions past 32 / 64 KiB of code, lines typed again after an error, the first failing line compared with the one program as well",
+ "C17": ("fault_enumeration", "retained Compiler+VM driven like the prompt; reference session model + eval() of the concatenated successful lines + carry-over and shadow-heap monitors; every line cut after every k instructions; the same sessions typed into the shipped prompt and compared line by line; sessions past 32 / 64 KiB of code, lines typed again after an error, the first failing line compared with the one program as well; the session typed at a pseudo-terminal (tools/pty_session.py), the interrupt key at the idle prompt, the reader of stdout going away, each line on a thread of its own; a size-limit refusal is compared with the one program",
          "All sessions of up to 3 lines over a 14-line alphabet (strided at length 3 in the quick tier), random sessions of 4-12 lines and directed ones; lines fail at parse, compile and run time, and every line of the alphabet sessions is cut after every k instructions, after which following lines probe the state: it must equal a prefix of the line's assignments. Held on the sessions and cuts enumerated.",
          "results handed out by a line are not released by the harness; referring to names declared by a run-time-failed line is unspecified (4.3(16))", "6.17"),
  "C01": ("exploration", "runtime differential monitor: executable reference interpreter (DESIGN §4) evaluated on the tree the real parser returned (and, for the operator-grouping family, on the harness's own tree) vs eval() under probes, quarantine shadow heap and instruction budget",
          "Every enumerated program up to a node budget and seeded type-directed random programs (6 profiles, injected faults) are executed by the real pipeline and by a definitional tree-walking interpreter; value, captured output and error kind must agree; documented example outputs are checked directly. Held on the programs run; unspecified behaviours (DESIGN 4.3) are skipped and counted.",
          "trusts harness/src/refsem.rs as the definition (cross-checked each run against documented outputs)", "6.1"),
- "C05": ("exploration", "worker-process supervisor as monitor: exit status / signal / stderr of workers, panics caught in-process, instruction budget, hang = no answer while consuming CPU time (wall clock only as watchdog) with re-run in isolation; release + debug builds and the shipped binary under a CPU-time limit and an address-space limit, built in the release and in the dev profile",
+ "C05": ("exploration", "worker-process supervisor as monitor: exit status / signal / stderr of workers, panics caught in-process, instruction budget, hang = no answer while consuming CPU time (wall clock only as watchdog) with re-run in isolation; release + debug builds and the shipped binary under a CPU-time limit and an address-space limit, built in the release and in the dev profile; inputs that are not UTF-8",
          "Directed boundary corpus, token soups, token edits, truncation at every char boundary and Unicode noise are evaluated in supervised worker processes; anything but a value, one of the five error kinds or budget exhaustion inside the VM loop is a violation. Held on the inputs tried.",
          "a hang is decided by consumed CPU time and must repeat in isolation; a worker that gets no CPU, SIGKILL and memory exhaustion a program spells out are not verdicts", "6.5"),
- "C07": ("exploration", "runtime round-trip monitor: print tree -> real parser -> compare trees, under random layouts; operator-pair space enumerated completely; every Unicode scalar value inside a comment (props/unisweep.rs)",
+ "C07": ("exploration", "runtime round-trip monitor: print tree -> real parser -> compare trees, under random layouts; operator-pair space enumerated completely; every Unicode scalar value inside a comment (props/unisweep.rs); tight / loose / commented comma lists run by the binary under nine environments",
          "All 11 336 binary-operator trees with at most three operators, assignment/op-assignment over all trees with at most two, postfix/prefix against every operator and else-if chains are printed with minimal parentheses and re-parsed by the real parser; random programs under random layouts. Held on the trees printed.",
          "prefix-operator binding strength is undocumented and avoided by the printer", "6.7"),
- "C08": ("exploration", "token-stream hook compared with generated token sequences; token-conservation monitor on every damaged text that parses; complete string-literal enumeration; every Unicode scalar value in a string literal / an identifier / refused as illegal; multi-byte characters across power-of-two offsets of files run by the binary",
+ "C08": ("exploration", "token-stream hook compared with generated token sequences; token-conservation monitor on every damaged text that parses; complete string-literal enumeration; every Unicode scalar value in a string literal / an identifier / refused as illegal; multi-byte characters across power-of-two offsets of files run by the binary; two files on one command line",
          "Random token sequences over the whole vocabulary with every separator choice a maximal-munch model allows must be seen by the real lexer exactly as written; every damaged text that still parses must keep all its content tokens; all 4 681 string contents up to length 4 over an 8-character alphabet decode exactly. Held on the texts generated.",
          "the adjacency model decides where no separator is needed (Appendix B)", "6.8"),
- "C13": ("exploration", "runtime differential monitor: reference model with object identity vs eval(); (length, index) grid enumerated completely; life cycles of long strings judged by the texts printed next to each observation, under the plain allocator and the quarantine heap (props/strlife.rs)",
+ "C13": ("exploration", "runtime differential monitor: reference model with object identity vs eval(); (length, index) grid enumerated completely; life cycles of long strings judged by the texts printed next to each observation, under the plain allocator and the quarantine heap (props/strlife.rs); exactly N changes in place between two reads for N around 2^8 … 2^18",
          "Complete sweep of every index from -(len+2) to len+2 over arrays of length 0-6 and strings of 0-6 characters of 1- to 4-byte code points (read, write, re-read, lengte, through aliases), every value type as index and stored value, directed aliasing cases and random operation sequences observed through every alias. Held on the sequences run.",
          "aliased string mutation is unspecified (4.3(7)) and skipped", "6.13"),
  "C14": ("exploration", "runtime differential monitor: builtin table of the reference semantics + algebraic laws vs eval(); builtin x shape matrix complete; life cycles of long strings (props/strlife.rs)",
          "Every builtin on every value shape and with 0/2/3 arguments, print over a format x argument-count grid, round-trip and identity laws over the int lattice, random ints, floats and texts. Documented entries are compared exactly, undocumented ones for totality and result type. Held on the calls made.",
          "entries under DESIGN 4.3(12,13) are only checked for totality", "6.14"),
  # id: (level, technique, level text, level note, design ref)
- "C06": ("exploration", "runtime differential monitor: exact big-integer / IEEE / code-point oracle over eval() of a op b; boundary lattice exhaustive, release and debug builds; chains of 3-5 terms with every application checked against the range",
+ "C06": ("exploration", "runtime differential monitor: exact big-integer / IEEE / code-point oracle over eval() of a op b; boundary lattice exhaustive, release and debug builds; chains of 3-5 terms with every application checked against the range; comparisons of long strings across in-place changes (props/strlife.rs)",
          "Every pair of a 355-value boundary lattice x 11 operators x 3 syntactic forms is executed on the real interpreter and compared with an exact oracle (complete enumeration), plus random 61-bit, float and string pairs and the 7x7 cross-type matrix; repeated on the debug-assertion/overflow-check build. Held on what was executed; the 2^122 pairs outside lattice+sample are not covered.",
          "trusts the host's i128 and f64 arithmetic as the oracle", "6.6"),
  "C15": ("exploration", "runtime round-trip assertions on the public Object API (constructors vs accessors, pairwise == over a 200x200 cross product) + literals and == / != read back through whole programs (constant pool, every comparison instruction) + life cycles of long strings (comparisons judged by the texts printed next to them)",
